@@ -1,5 +1,5 @@
 //@ unit u_comp
-//@ depends u_graph u_bfs
+//@ depends u_graph u_bfs u_wbfs
 // C10 (outer loops only): connected_components / weakly_connected_components / number_of_connected_components /
 // node_connected_component: the WrongMethod guards, and that every node ends up in some returned set. The reachability
 // content lives in breadth_first_search / plain_bfs (hash-set union pipelines), which are ASSUMED here (A5) to return a list
@@ -21,6 +21,7 @@ broadcast use {f64ax::group_f64_axioms, dispax::axiom_display_total, cloneax::ax
 //@ include-assumed adjvec.rs u_graph
 //@ include-assumed graph_fns.rs u_graph
 //@ include-assumed bfs_fns.rs u_bfs
+//@ include-assumed wbfs_fns.rs u_wbfs
 
 // ---- A5: assumed contracts on unverified graphrs functions (iterator / hash-set pipelines) ----
 impl<T, A> Graph<T, A>
@@ -43,20 +44,6 @@ where
 
 }
 
-//@ extract fn src/algorithms/components/weak_connectivity.rs plain_bfs nobody
-//@ head
-#[verifier::external_body]
-//@ rewrite
--> Vec<T>
-//@ with
--> (r: Vec<T>)
-//@ spec
-    requires
-        graph.wf_nodes(),
-        graph.knows(*source),
-    ensures
-        r@.contains(*source),
-//@ end
 
 // R-ext: `vec.to_hashset()` (extension trait crate::ext::vec::VecExt) and `a.union(&b).cloned().collect()`
 #[verifier::external_body]
@@ -194,9 +181,11 @@ for v in graph.get_all_node_names()
 //@ with
 for v in it: graph.get_all_node_names()
 //@ rewrite
-plain_bfs(graph, v).to_hashset()
+let bfs = plain_bfs(graph, v).to_hashset();
 //@ with
-vto_hashset(plain_bfs(graph, v))
+let bfs_list = plain_bfs(graph, v);
+            let ghost ov = bfs_list@;
+            let bfs = vto_hashset(bfs_list);
 //@ rewrite
 seen.union(&bfs).cloned().collect()
 //@ with
@@ -204,16 +193,25 @@ vset_union(&seen, &bfs)
 //@ spec
     requires
         graph.wf_nodes(),
+        // on a directed graph whose name-keyed adjacency maps are coherent, weak steps are symmetric (u_coh: lemma_wsteps_symmetric)
+        graph.specs.directed ==> wsteps_symmetric(*graph),
     ensures
         // [C10.wcc.wrong_method_on_undirected]
         !graph.specs.directed ==> is_err_kind(r, ErrorKind::WrongMethod),
         graph.specs.directed ==> r.is_ok(),
         // [C10.wcc.every_node_in_some_set]
         r.is_ok() ==> forall|i: int| 0 <= i < graph.n() ==> covered(r.unwrap()@, #[trigger] graph.nodes_vec@[i].name),
+        // [C10.wcc.each_set_is_the_weakly_reachable_set_of_a_node]
+        r.is_ok() ==> forall|k: int| 0 <= k < r.unwrap()@.len() ==> is_w_reach_set(*graph, #[trigger] r.unwrap()@[k]@),
+        // [C10.wcc.sets_are_pairwise_disjoint]
+        r.is_ok() ==> forall|j: int, k: int, x: T| 0 <= j < k < r.unwrap()@.len() && #[trigger] r.unwrap()@[j]@.contains(x) && #[trigger] r.unwrap()@[k]@.contains(x) ==> false,
 //@ loop 1
         invariant
             graph.wf_nodes(),
-            forall|x: T| seen@.contains(x) ==> covered(components@, x),
+            forall|x: T| seen@.contains(x) <==> covered(components@, x),
+            graph.specs.directed && wsteps_symmetric(*graph),
+            forall|k: int| 0 <= k < components@.len() ==> is_w_reach_set(*graph, #[trigger] components@[k]@),
+            forall|j: int, k: int, x: T| 0 <= j < k < components@.len() && #[trigger] components@[j]@.contains(x) && #[trigger] components@[k]@.contains(x) ==> false,
             forall|j: int| 0 <= j < it.index@ ==> covered(components@, #[trigger] graph.nodes_vec@[j].name),
 //@ before seen = seen.union(&bfs).cloned().collect();
             let ghost seen_before = seen@;
@@ -230,10 +228,38 @@ vset_union(&seen, &bfs)
                 assert forall|x: T| bfs_view.contains(x) implies covered(components@, x) by {
                     assert(components@[rv0.len() as int]@.contains(x));
                 }
-                assert forall|x: T| seen@.contains(x) implies covered(components@, x) by {
-                    if !bfs_view.contains(x) {
+                assert forall|x: T| seen@.contains(x) <==> covered(components@, x) by {
+                    if seen@.contains(x) && !bfs_view.contains(x) {
                         assert(seen_before.contains(x));
                         assert(covered(rv0, x));
+                    }
+                    if covered(components@, x) {
+                        let c = choose|c: int| 0 <= c < components@.len() && #[trigger] components@[c]@.contains(x);
+                        if c < rv0.len() { assert(components@[c] == rv0[c]); assert(covered(rv0, x)); }
+                    }
+                }
+                assert(w_reach_set_of(*graph, *v, ov, bfs_view));
+                assert forall|k: int| 0 <= k < components@.len() implies is_w_reach_set(*graph, #[trigger] components@[k]@) by {
+                    if k < rv0.len() { assert(components@[k] == rv0[k]); assert(is_w_reach_set(*graph, rv0[k]@)); }
+                }
+                assert forall|j: int, k: int, x: T| 0 <= j < k < components@.len() && #[trigger] components@[j]@.contains(x) && #[trigger] components@[k]@.contains(x) implies false by {
+                    if k == rv0.len() {
+                        assert(components@[j] == rv0[j]);
+                        assert(is_w_reach_set(*graph, rv0[j]@));
+                        let (st, oj) = choose|st: T, oj: Seq<T>| #[trigger] w_reach_set_of(*graph, st, oj, rv0[j]@);
+                        assert(wclosed(*graph, rv0[j]@)) by {
+                            assert forall|a: T, y: T| rv0[j]@.contains(a) && #[trigger] wsteps(*graph, a, y) implies rv0[j]@.contains(y) by {
+                                assert(oj.contains(a));
+                                assert(oj.contains(y));
+                            }
+                        }
+                        assert(ov.contains(x));
+                        let i = choose|i: int| 0 <= i < ov.len() && ov[i] == x;
+                        lemma_w_reaches_back(*graph, *v, ov, i, rv0[j]@);
+                        assert(covered(rv0, *v));
+                        assert(seen_before.contains(*v));
+                    } else {
+                        assert(components@[j] == rv0[j] && components@[k] == rv0[k]);
                     }
                 }
             }
